@@ -189,8 +189,8 @@ def saturation_mutagenesis(model, X, args=None, start=0, end=-1, batch_size=32,
 			*y_hat_.shape[1:])
 	else:
 		y_hat = [
-			torch.cat(y_).reshape(X.shape[0], X.shape[2], X.shape[1], 
-				*y_[0].shape[1:]).transpose(2, 1) for y_ in zip(*y_hat)
+			torch.cat(y_).reshape(X.shape[0], X.shape[1], end-start, 
+				*y_[0].shape[1:]) for y_ in zip(*y_hat)
 		]
 
 	if raw_outputs == False:
